@@ -5,6 +5,7 @@
    stream, so each statement speaks about the state after every character. *)
 From Coq Require Import ZArith NArith List Bool.
 From IE Require Import Model.TermCore Model.AnsiTok Model.Emu Proofs.TermProofs Proofs.AnsiProofs Proofs.EmuProofs.
+From IE Require Import Model.Petscii Proofs.PetsciiProofs.
 Import ListNotations.
 Local Open Scope Z_scope.
 
@@ -55,3 +56,15 @@ Proof. vm_compute. reflexivity. Qed.
 Example resize_breaks : match run EAnsi (init 0 false 80 25) ([27; 91; 50; 48; 67] ++ [27; 91; 56; 59; 53; 59; 53; 116]) with
                         | RunOk m => cx (mt m) = 20 /\ tw (mt m) = 5 /\ resized (ps (am m)) = true | _ => False end.
 Proof. vm_compute. repeat split; reflexivity. Qed.
+
+(* PETSCII (Model/Petscii.v, added with the C01 extension): a scrolling terminal as well; it has no resize, so no side
+   condition: after every stream the cursor is inside the visible screen *)
+Theorem c09_petscii : forall music bs w h cs m',
+  1 <= w <= 132 -> 1 <= h <= 60 -> run_petscii (init music bs w h) cs = RunOk m' ->
+  0 <= cx (mt m') < tw (mt m') /\ first (mt m') <= cy (mt m') < first (mt m') + th (mt m').
+Proof. exact c09_petscii_proof. Qed.
+(* 30 RETURNs, 45 cursor-right, cursor-up x 3: inside the 40 x 25 screen, scrollback present *)
+Example petscii_scrollback :
+  match run_petscii (init 0 false 40 25) (repeat 13 30 ++ repeat 29 45 ++ [145; 145; 145]) with
+  | RunOk m => Some (cx (mt m), cy (mt m), first (mt m), bh (mt m)) | _ => None end = Some (39, 27, 6, 31).
+Proof. vm_compute. reflexivity. Qed.
